@@ -187,8 +187,9 @@ func VH_C03_StatusAllValues() {
 }
 
 // VH_C03_Variants: b1 bundle, one URL with a 2x2 Variants grid (Accept-Language: en, ja) x (Accept-Encoding: gzip,
-// br); the four representations (symbolic one-byte bodies) are supplied in EVERY permutation (24); also with one
-// representation missing (incomplete coverage) or one Variant-Key used twice (overlap):
+// br); the four representations (symbolic one-byte bodies) are supplied in EVERY permutation (24); the Variants header given as one
+// field line or split over two; also with one representation missing (incomplete coverage) or one Variant-Key
+// claimed twice (by two exchanges, or through a second Variant-Key field line):
 // complete sets are written and come back in row-major order of the Variants axes with the right bodies;
 // incomplete or overlapping coverage is refused at write time.
 func VH_C03_Variants() {
@@ -202,7 +203,8 @@ func VH_C03_Variants() {
 		perm = append(perm, rem[c])
 		rem = append(rem[:c:c], rem[c+1:]...)
 	}
-	mode := vh.Choose(3) // 0 complete, 1 incomplete (drop last supplied), 2 overlap (last supplied repeats the first's key)
+	mode := vh.Choose(4) // 0 complete, 1 incomplete (drop last supplied), 2 overlap (last supplied repeats the first's key), 3 overlap through a second Variant-Key field line
+	splitVariants := vh.Choose(2) == 1 // Variants given as two header field lines (comma-joined by the writer) instead of one
 	bodies := vh.Bytes("bodies", 4)
 	u := c03MustURL("https://a/v")
 	b := &Bundle{Version: "b1", PrimaryURL: u}
@@ -215,8 +217,16 @@ func VH_C03_Variants() {
 			key = keys[perm[0]]
 		}
 		h := http.Header{}
-		h.Set("Variants", "Accept-Language;en;ja, Accept-Encoding;gzip;br")
+		if splitVariants {
+			h["Variants"] = []string{"Accept-Language;en;ja", "Accept-Encoding;gzip;br"}
+		} else {
+			h.Set("Variants", "Accept-Language;en;ja, Accept-Encoding;gzip;br")
+		}
 		h.Set("Variant-Key", key)
+		if mode == 3 && j == 0 {
+			// a second field line claiming the key of the representation supplied next
+			h["Variant-Key"] = []string{key, keys[perm[1]]}
+		}
 		b.Exchanges = append(b.Exchanges, &Exchange{Request{URL: u}, Response{Status: 200, Header: h, Body: []byte{bodies[ki]}}})
 	}
 	var w vh.Sink
@@ -226,7 +236,7 @@ func VH_C03_Variants() {
 		vh.Reach("incomplete")
 		vh.Assert(err != nil, "incomplete variant coverage is refused at write time")
 		return
-	case 2:
+	case 2, 3:
 		vh.Reach("overlap")
 		vh.Assert(err != nil, "overlapping variant coverage is refused at write time")
 		return
@@ -246,6 +256,7 @@ func VH_C03_Variants() {
 	for i := 0; i < 4; i++ {
 		e := back.Exchanges[i]
 		vh.Assert(e.Response.Header.Get("Variant-Key") == keys[i], "representations come back in row-major order of the Variants axes")
+		vh.Assert(e.Response.Header.Get("Variants") == "Accept-Language;en;ja,Accept-Encoding;gzip;br" || e.Response.Header.Get("Variants") == "Accept-Language;en;ja, Accept-Encoding;gzip;br", "Variants header preserved (field lines comma-joined)")
 		vh.Assert(len(e.Response.Body) == 1 && e.Response.Body[0] == bodies[i], "each representation keeps its own body")
 	}
 }
